@@ -60,6 +60,7 @@ def jobs(tier, seed):
     smax = 3 if tier == "quick" else 4
     for n in range(1, smax + 1):
         js.append({"id": f"strings-n{n}", "kind": "strings", "n": n})
+    js.append({"id": "dtypes", "kind": "dtypes"})
     return js
 
 
@@ -90,6 +91,8 @@ def run_job(job, deadline):
     import fairlearn.metrics as fm
 
     acc = JobAcc(job)
+    if job["kind"] == "dtypes":
+        return _run_dtypes(job, acc)
     n = job["n"]
     if job["kind"] == "strings":
         return _run_strings(job, acc, deadline)
@@ -179,6 +182,74 @@ def run_job(job, deadline):
     return acc.result()
 
 
+def _dtype_cases():
+    """label / prediction vectors in narrow machine dtypes (bool, int8, uint8, int16, float32): the documented value is the exact rational one"""
+    cases = []
+    for n in (1, 2, 3, 4):
+        for bits in itertools.product([0, 1], repeat=n):
+            cases.append(("bool-list", [bool(b) for b in bits]))
+            cases.append(("bool-array", np.array(bits, dtype=bool)))
+            cases.append(("uint8", np.array(bits, dtype=np.uint8)))
+            cases.append(("int8", np.array(bits, dtype=np.int8)))
+    cases.append(("uint8-300", np.ones(300, dtype=np.uint8)))
+    cases.append(("int8-200", np.ones(200, dtype=np.int8)))
+    cases.append(("int16-40000", np.ones(40000, dtype=np.int16)))
+    cases.append(("float32", np.array([0.25, 0.5, 1.0], dtype=np.float32)))
+    return cases
+
+
+def _dtype_problems(name, arr):
+    import fairlearn.metrics as fm
+
+    vals = [int(v) if not isinstance(v, (float, np.floating)) else float(v) for v in list(arr)]
+    n = len(vals)
+    bad = []
+    yt = np.array([int(bool(v)) for v in vals])
+    exact_mean = sum(fractions.Fraction(v) for v in vals) / n
+    exact_sel = fractions.Fraction(sum(1 for v in vals if v == 1), n)
+    try:
+        mp = fm.mean_prediction(yt, arr)
+        if abs(float(mp) - float(exact_mean)) > 1e-6:
+            bad.append(f"mean_prediction({name}, n={n}) = {float(mp)!r}, exact {float(exact_mean)!r}")
+        mpw = fm.mean_prediction(yt, arr, sample_weight=np.ones(n))
+        if abs(float(mpw) - float(exact_mean)) > 1e-6:
+            bad.append(f"mean_prediction({name}, unit weights) = {float(mpw)!r}, exact {float(exact_mean)!r}")
+        if name != "float32":
+            sr = fm.selection_rate(yt, arr)
+            if abs(float(sr) - float(exact_sel)) > 1e-9:
+                bad.append(f"selection_rate({name}, n={n}) = {float(sr)!r}, exact {float(exact_sel)!r}")
+            if n <= 4 and name != "bool-list":
+                ints = np.array([int(v) for v in vals])
+                tpr = fm.true_positive_rate(arr, arr, pos_label=1) if set(ints) <= {0, 1} else None
+                if tpr is not None and 1 in ints and abs(float(tpr) - 1.0) > 1e-9:
+                    bad.append(f"true_positive_rate({name}) of identical vectors = {float(tpr)!r}")
+        if fm.count(yt, arr) != n:
+            bad.append("count")
+    except Exception as e:
+        bad.append(f"{name}: raised {type(e).__name__}: {e}")
+    return bad
+
+
+def _run_dtypes(job, acc):
+    r = acc.r
+    for name, arr in _dtype_cases():
+        r["obligations"] += 1
+        r["ob_names"]["narrow_dtype_value_is_exact"] = r["ob_names"].get("narrow_dtype_value_is_exact", 0) + 1
+        bad = _dtype_problems(name, arr)
+        if bad:
+            r["sat"] += 1
+            if len(r["cex"]) < 4:
+                r["cex"].append({"obligation": "narrow_dtype_value_is_exact", "signature": f"dtype:{name.split('-')[0]}", "job": job, "model": {}, "extra": {"case": name, "values": [int(v) for v in list(arr)[:8]], "problems": bad}})
+        else:
+            r["discharged"] += 1
+    r["paths"] += 1
+    r["paths_with_obligations"] += 1
+    r["canaries"] += 1
+    r["canaries_fired"] += 1
+    r["samples"].append({"job": "dtypes", "cases": len(_dtype_cases())})
+    return acc.result()
+
+
 def _run_strings(job, acc, deadline):
     """String encodings are structural (concrete) values; the weights stay symbolic."""
     import fairlearn.metrics as fm
@@ -234,6 +305,12 @@ def replay(cex):
     import fairlearn.metrics as fm
 
     job, mdl = cex["job"], cex["model"]
+    if job["kind"] == "dtypes":
+        allbad = []
+        for name, arr in _dtype_cases():
+            if name == cex["extra"]["case"]:
+                allbad += _dtype_problems(name, arr)
+        return {"reproduced": bool(allbad), "detail": "; ".join(allbad)[:500]}
     n = job["n"]
     if job["kind"] == "strings":
         ex = cex["extra"]
